@@ -84,13 +84,39 @@ def r1_r2_startup(ctx):
             any(x[0] == 'call' and x[1].endswith('::next') for x in walk(a[2])) for a in atoms)
     ctx.check(g, 'stage-guard', 'a module is started in stage i iff i < its declared number of stages (exactly once per declared stage)', s.where(), [show_atom(a) for a in atoms if a[0] == 'cmp'])
     # outer bound: fold(.., max(num_sim_start_stages))
-    folds = [x for x in f.calls() if x.name.endswith('::fold')]
+    P = ctx.P
+
+    def _closure_calls(t, name):
+        t = peel(t)
+        if t[0] == 'agg' and str(t[1]).startswith('closure:'):
+            g2 = P.fns.get(t[1][len('closure:'):])
+            return bool(g2) and any(name(c) for c in g2.calls())
+        return False
+    is_stages = lambda c: c.name == EV + 'num_sim_start_stages'
+    is_max = lambda c: c.name.endswith('::max')
     okb = False
-    for x in folds:
-        for g2 in ctx.P.closures_of(f):
-            names = {c.name for c in g2.calls()}
-            if EV + 'num_sim_start_stages' in names and any(n.endswith('::max') for n in names):
-                okb = True
+    for x in f.calls():
+        nm = x.callee or x.name
+        if not (nm.endswith('Iterator::fold') or nm.endswith('Iterator::max')):
+            continue
+        args = [f.expr_operand(a_, x.b, 'T') for a_ in x.args]
+        recv_maps_stages = any(y[0] == 'call' and y[1].endswith('Iterator::map') and len(y[2]) > 1 and _closure_calls(y[2][1], is_stages) for y in walk(args[0]))
+        if nm.endswith('Iterator::fold') and len(args) == 3:
+            comb = peel(args[2])
+            by_closure = _closure_calls(comb, is_stages) and _closure_calls(comb, is_max)
+            by_fnitem = comb[0] == 'fnitem' and comb[1].endswith('::max') and recv_maps_stages
+            by_closure2 = _closure_calls(comb, is_max) and recv_maps_stages
+            okb = okb or by_closure or by_fnitem or by_closure2
+        elif nm.endswith('Iterator::max'):
+            okb = okb or recv_maps_stages
+    for x in f.calls():
+        # loop form: max_stage = max_stage.max(module.num_sim_start_stages()) for every module
+        nm = x.callee or x.name
+        if nm.endswith('cmp::Ord::max') and f.loops_containing(x.b):
+            args = [f.expr_operand(a_, x.b, 'T') for a_ in x.args]
+            if any(any(y[0] == 'call' and y[1] == EV + 'num_sim_start_stages' for y in walk(t)) for t in args):
+                h = innermost_loop(f, x.b)
+                okb = okb or loop_exits_only_on_exhaustion(f, h)
     ctx.check(okb, 'outer-bound-is-max', 'the outer loop runs to the maximum declared stage count of all modules', f.where())
     # per-module protocol inside the loop: activate -> at_sim_start -> deactivate -> buf_process
     act = [x for x in f.calls() if x.name.endswith('ModuleRef::activate')]
@@ -98,6 +124,36 @@ def r1_r2_startup(ctx):
     bp = f.calls_to(NR + 'ctx::buf_process')
     if act and dea and bp:
         ctx.check(f.dominates(act[0].b, s.b) and f.dominates(s.b, dea[0].b) and f.dominates(dea[0].b, bp[0].b), 'startup-bracket', 'each start-up call is bracketed by activate/deactivate and followed by the buffer flush', s.where())
+
+
+def _r3_tail(ctx, f, s):
+    # the insert happens at the scanned position with the module itself
+    ctx.check(peel(f.expr_operand(s.args[2], s.b, 'T'))[0] == 'arg', 'inserts-module', 'the new module is inserted at the scanned position', s.where())
+    # root-level / parentless modules are appended — and only those (decided per path)
+    n_push = n_ins = 0
+    for path, outcome, decs in fn_paths(ctx, f):
+        if outcome != 'return':
+            continue
+        effs = path_effects(f, path)
+        pushed = [e for e in effs if e[0] == 'c' and e[1].name == 'std::vec::Vec::push' and receiver_field(e[2][0]) == 'modules']
+        inserted = [e for e in effs if e[0] == 'c' and e[1].name == 'std::vec::Vec::insert']
+        atoms = [a for _, a in path_atoms(f, path, decs)]
+        no_parent = any(a[0] == 'is' and a[2] == 'None' and a[1][0] == 'call' and a[1][1].endswith('ObjectPath::parent') for a in atoms)
+        root_parent = any(a[0] == 'bool' and a[2] is True and a[1][0] == 'call' and a[1][1].endswith('ObjectPath::is_root') for a in atoms)
+        if pushed:
+            n_push += 1
+            extra = [a for a in atoms if a[0] in ('cmp', 'bool') and not (a[0] == 'bool' and a[1][0] == 'call' and a[1][1].endswith('ObjectPath::is_root'))]
+            ctx.check((no_parent or root_parent) and not extra and not inserted and len(pushed) == 1, 'append-only-top-level',
+                      'a node is appended at the end of the module vector only if it has no parent or its parent is the root — every other node goes through the subtree scan',
+                      f.where_path(path), [show_atom(a) for a in atoms])
+        elif inserted:
+            n_ins += 1
+            ctx.check(not no_parent and not root_parent and len(inserted) == 1, 'append-only-top-level',
+                      'a node with a non-root parent is inserted by the subtree scan (exactly once)', f.where_path(path), [show_atom(a) for a in atoms][:8])
+        else:
+            ctx.violation('module-not-stored', 'ModuleTree::add returns without storing the module', f.where_path(path))
+    ctx.floor('appending paths of ModuleTree::add', n_push, 1)
+    ctx.floor('inserting paths of ModuleTree::add', n_ins, 1)
 
 
 def r3_insertion_rule(ctx):
@@ -112,7 +168,11 @@ def r3_insertion_rule(ctx):
     pos = f.expr_operand(s.args[1], s.b, 'T')
     # start: rposition(.. == parent) + 1
     rp = [x for x in walk(pos) if x[0] == 'call' and x[1].endswith('::rposition')]
-    fwd = [x for x in walk(pos) if x[0] == 'call' and x[1].endswith(('::position', '::find'))]
+    fwd_all = [x for x in walk(pos) if x[0] == 'call' and x[1].endswith(('::position', '::find'))]
+    # a forward search over `modules[start..]` is the scan itself (search form of the loop), not the search for the parent
+    def _is_tail_scan(x):
+        return any(y[0] == 'agg' and 'RangeFrom' in str(y[1]) and any(z[0] == 'call' and z[1].endswith('::rposition') for z in walk(y)) for y in walk(x[2][0]))
+    fwd = [x for x in fwd_all if not _is_tail_scan(x)]
     ctx.check(bool(rp) and not fwd, 'start-after-last-parent-match', 'the scan starts right after the last entry equal to the parent', s.where(), show(pos)[:200])
     plus1 = any(x[0] == 'bin' and x[1].startswith('Add') and x[3] == ('int', 1) for x in walk(pos))
     ctx.check(plus1, 'start-plus-one', 'the scan starts one past the parent', s.where())
@@ -128,6 +188,45 @@ def r3_insertion_rule(ctx):
                         dv = [d for d in f._defs() if d[0] == st['p']['l'] and not d[3]]
                         if any(d[1] not in body for d in dv):
                             adv.append((h, b))
+    scans = [x for x in fwd_all if _is_tail_scan(x)]
+    if not adv and scans:
+        # search form: modules[start..].iter().position(|m| m.path.len() <= parent_depth).map_or(modules.len(), |o| start + o)
+        x = scans[0]
+        P = ctx.P
+        stop = None
+        cl = peel(x[2][1]) if len(x[2]) > 1 else None
+        if cl and cl[0] == 'agg' and str(cl[1]).startswith('closure:'):
+            g = P.fns.get(cl[1][len('closure:'):])
+            for _, t in (ret_trees(g) if g else []):
+                t = peel(t)
+                if t[0] == 'bin' and t[1] in ('Le', 'Lt', 'Ge', 'Gt'):
+                    l, r, op = peel(t[2]), peel(t[3]), t[1].lower()
+                    if not (l[0] == 'call' and l[1].endswith('ObjectPath::len')):
+                        l, r, op = r, l, SWAP[op]
+                    cap = resolve_captures(P, g, r) if g else r
+                    if l[0] == 'call' and l[1].endswith('ObjectPath::len') and any(y[0] == 'arg' and y[1] == 2 for y in walk(l)) \
+                            and any(y[0] == 'call' and y[1].endswith('ObjectPath::len') for y in walk(cap)) and any(y[0] == 'call' and y[1].endswith('ObjectPath::parent') for y in walk(cap)):
+                        stop = op
+        mo = [y for y in walk(pos) if y[0] == 'call' and y[1].endswith('Option::map_or') and y[2] and any(z is x or z == x for z in walk(y[2][0]))]
+        dflt_ok = offs_ok = False
+        if mo:
+            dflt = peel(mo[0][2][1])
+            dflt_ok = dflt[0] == 'call' and dflt[1].endswith('Vec::len') and receiver_field(dflt[2][0]) == 'modules'
+            mc = peel(mo[0][2][2])
+            if mc[0] == 'agg' and str(mc[1]).startswith('closure:'):
+                g2 = P.fns.get(mc[1][len('closure:'):])
+                for _, t in (ret_trees(g2) if g2 else []):
+                    tt = t[1] if (t[0] == 'field' and t[1][0] == 'bin') else t
+                    if tt[0] == 'bin' and tt[1].startswith('Add'):
+                        parts = [resolve_captures(P, g2, tt[2]), resolve_captures(P, g2, tt[3])]
+                        has_start = any(any(z[0] == 'call' and z[1].endswith('::rposition') for z in walk(q)) for q in parts)
+                        has_off = any(peel(q)[0] == 'arg' and peel(q)[1] == 2 for q in (tt[2], tt[3]))
+                        offs_ok = has_start and has_off
+        ctx.check(stop == 'le' and dflt_ok and offs_ok, 'advance-iff-deeper',
+                  'the scan advances past an entry iff its path is strictly deeper than the parent (search form: first entry at or above the parent depth after the parent, else the end): the new child lands after the whole existing subtree of its parent and before the next sibling/ancestor entry',
+                  s.where(), {'form': 'search', 'stop_test': stop, 'default_is_len': dflt_ok, 'offset_added_to_start': offs_ok})
+        _r3_tail(ctx, f, s)
+        return
     if not ctx.floor('scan loop in ModuleTree::add', len(adv), 1):
         return
     h, b = adv[0]
@@ -152,19 +251,7 @@ def r3_insertion_rule(ctx):
     ctx.check(depth == 'gt' and not foreign, 'advance-iff-deeper',
               'the scan advances past an entry iff its path is strictly deeper than the parent (depth comparison): the new child lands after the whole existing subtree of its parent and before the next sibling/ancestor entry',
               f.where(b), {'depth_test': depth, 'other_conditions': [show_atom(a) for a in foreign]})
-    # the insert happens at the scanned position with the module itself
-    ctx.check(peel(f.expr_operand(s.args[2], s.b, 'T'))[0] == 'arg', 'inserts-module', 'the new module is inserted at the scanned position', s.where())
-    # root-level / parentless modules are appended — and only those
-    pushes = [x for x in f.calls() if x.name == 'std::vec::Vec::push']
-    ctx.floor('append branches in ModuleTree::add', len(pushes), 2)
-    for x in pushes:
-        atoms = [a for _, a in f.guard_atoms(x.b)]
-        no_parent = any(a[0] == 'is' and a[2] == 'None' and a[1][0] == 'call' and a[1][1].endswith('ObjectPath::parent') for a in atoms)
-        root_parent = any(a[0] == 'bool' and a[2] is True and a[1][0] == 'call' and a[1][1].endswith('ObjectPath::is_root') for a in atoms)
-        extra = [a for a in atoms if a[0] in ('cmp', 'bool') and not (a[0] == 'bool' and a[1][0] == 'call' and a[1][1].endswith('ObjectPath::is_root'))]
-        ctx.check((no_parent or root_parent) and not extra, 'append-only-top-level',
-                  'a node is appended at the end of the module vector only if it has no parent or its parent is the root — every other node goes through the subtree scan',
-                  x.where(), [show_atom(a) for a in atoms])
+    _r3_tail(ctx, f, s)
 
 
 def r4_teardown(ctx):
